@@ -10,7 +10,7 @@
    names are mapped through markup.attributes. *)
 From Coq Require Import String.
 From Emmet Require Import lib.Base lib.StrLit model.MarkupTokenizer model.MarkupParser model.MarkupConvert
-     model.MarkupResolve model.OutStream model.FormatHtml proofs.AttrProofs.
+     model.MarkupResolve model.OutStream model.FormatHtml proofs.AttrProofs proofs.AttrParseProofs.
 
 (* merging: for ALL attribute lists the code's loop (dictionary lookup + in-place update) computes
    [merge_spec]: every name once at its first position; class values joined by one space in written
@@ -62,6 +62,27 @@ Theorem C03_attr_out_text :
 Proof. exact attr_out_text. Qed.
 Print Assumptions C03_attr_out_text.
 
+(* attr_parse_roundtrip -- full statement: for attribute lists over the grammar (id, class, [n=v] with
+   quoted / unquoted / empty / valueless / boolean `n.` / implied `!n` values) rendered to TEXT,
+   Parser.element (tokenize text) yields exactly those attributes in order.
+   Proved (_partial) at the TOKEN level for the bracketed set: for every list of written attributes
+   (name, name=, name=value, name="..."/'...', name={...}, bare "..."; names and unquoted values any
+   non-empty run of literal/number/field tokens; quoted bodies any tokens but the closing quote;
+   expression bodies any tokens but expression brackets), separated by white space, between `[` and `]`,
+   attribute_set returns exactly the written attributes in order and consumes through the `]`.
+   Missing: the character level (that the tokenizer produces such token runs, with `.`/`!` inside names
+   kept literal), the `#id` / `.class` shorthands of element(), and the stringification of the value
+   tokens by convert_attribute; these are covered by the correspondence and the verbatim oracle. *)
+Theorem C03_attr_parse_roundtrip_partial :
+  forall (open : token) (lead : list token) (l : list (wattr * list token)) (close : token) (after : list token),
+    is_bracket open (Some BAttr) (Some true) = true ->
+    forallb is_white_space_tok lead = true ->
+    list_ok l -> is_close_attr close = true ->
+    attribute_set (open :: lead ++ render l ++ close :: after) =
+    ASOk (map (fun p => wparsed (fst p)) l) (length (open :: lead ++ render l) + 1).
+Proof. exact attribute_set_reads. Qed.
+Print Assumptions C03_attr_parse_roundtrip_partial.
+
 (* non-vacuity: .x [b=1] .y [b=2] merges to class="x y" b=2 (b=1 under reverse), class first *)
 Example C03_nonvacuous :
   let at_ (n v : str) := mkAAttr (Some n) (Some [VStr v]) VRaw false false false in
@@ -78,3 +99,19 @@ Example C03_out_nonvacuous :
   let a := mkAAttr (Some (S "t")) (Some [VStr (S "x y")]) VDouble false false false in
   form_nl_free (attr_out_spec c a) /\ form_text (attr_out_spec c a) = S " t='x y'".
 Proof. split; vm_compute; repeat split; repeat constructor. Qed.
+
+(* non-vacuity of the parser theorem: [a=b "x" c] as tokens is a well-formed written list *)
+Example C03_parse_nonvacuous :
+  let lit c p := mkTok (TLiteral [c]) p (p + 1) in
+  let ws p := mkTok (TWhiteSpace [32%N]) p (p + 1) in
+  let q p := mkTok (TQuote false) p (p + 1) in
+  let l := [(WUnq [lit 97%N 1] (mkTok (TOperator OpEqual) 2 3) [lit 98%N 3], [ws 4]);
+            (WBare (q 5) [lit 120%N 6] (q 7), [ws 8]);
+            (WName [lit 99%N 9], [])] in
+  list_ok l /\ length (render l) = 9.
+Proof.
+  cbv zeta. split; [|reflexivity]. simpl.
+  repeat split; try discriminate; try reflexivity; try (intros _; discriminate).
+  - exists false. repeat split.
+  - intro H. exact H.
+Qed.
